@@ -254,8 +254,26 @@ func init() {
 		e.block(func() bool { return l.r <= 0 }, "sync.WaitGroup.Wait")
 		return nil
 	})
+	// sync.Pool keeps what was Put (LIFO), so that code recycling buffers through a pool
+	// really shares them between users, as at run time
+	poolOf := func(e *Engine, o *Obj) *[]Value {
+		m, _ := e.extraCtx["pools"].(map[*Obj]*[]Value)
+		if m == nil {
+			m = map[*Obj]*[]Value{}
+			e.extraCtx["pools"] = m
+		}
+		if m[o] == nil {
+			m[o] = &[]Value{}
+		}
+		return m[o]
+	}
 	reg("(*sync.Pool).Get", func(e *Engine, args []Value, fn *ssa.Function) Value {
 		p := args[0].(Ptr).Obj
+		if l := poolOf(e, p); len(*l) > 0 {
+			v := (*l)[len(*l)-1]
+			*l = (*l)[:len(*l)-1]
+			return v
+		}
 		st := p.T.Underlying().(*types.Struct)
 		for i := 0; i < st.NumFields(); i++ {
 			if st.Field(i).Name() == "New" {
@@ -267,7 +285,11 @@ func init() {
 		}
 		return Iface{}
 	})
-	reg("(*sync.Pool).Put", func(e *Engine, args []Value, fn *ssa.Function) Value { return nil })
+	reg("(*sync.Pool).Put", func(e *Engine, args []Value, fn *ssa.Function) Value {
+		l := poolOf(e, args[0].(Ptr).Obj)
+		*l = append(*l, args[1])
+		return nil
+	})
 	// sync.Map as an association list stored in the side table
 	smap := func(e *Engine, o *Obj) *MapObj {
 		m, _ := e.extraCtx["syncmaps"].(map[*Obj]*MapObj)
